@@ -87,6 +87,12 @@ func (p *TriggerPool) sendJobsForExecution(numJobs int) {
 
 	p.jobsAvailableCond.L.Unlock()
 
+	// once the max iterations limit stopped the pool, pending work could never have started:
+	// it is discarded silently instead of being reported as dropped
+	if p.manager.MaxIterationsReached() {
+		return
+	}
+
 	for range jobsDiscarded {
 		p.manager.activeScenario.RecordDroppedIteration()
 	}
